@@ -42,6 +42,10 @@ def run(ctx):
     # re-links the own record past exactly what it freed (nothing is cut off unfreed)
     ctx.step(c05.reclaim, ctx, "C13.reclaim")
     ctx.step(uaf, ctx, "C13.uaf", fns(ctx), floor=20)
+    # a node linked by a re-entrant insertion (recursive mutex, element constructor adding to the same list) must not be
+    # cut out again by the outer insertion's stale view of the list ends: it would never be destroyed
+    from . import c12
+    ctx.step(c12.reentrancy_rule, ctx, "C13.reentrancy")
 
 
 def nullable(ctx):
